@@ -4,7 +4,7 @@
    arithmetic; DATEDIFF/TIMESTAMPDIFF; time.Date normalisation used by STR_TO_DATE). *)
 From Coq Require Import List NArith ZArith Bool.
 Import ListNotations.
-From GMS Require Import Codec.C31Date Codec.C31DateProofs.
+From GMS Require Import Codec.C31Date Codec.C31DateProofs Codec.C31Format Codec.C31FormatProofs.
 Open Scope Z_scope.
 
 (* civil calendar round trip, both directions, every day number and every year (no range bound) *)
@@ -77,6 +77,25 @@ Theorem C31_invalid_dates_rejected_refuted :
   str_to_date_ymd true 2023 2 30 = Some (2023, 3, 2) /\ valid_date (2023, 2, 30) = false.
 Proof. exact str_to_date_shifts_invalid. Qed.
 Print Assumptions C31_invalid_dates_rejected_refuted.
+
+(* DATE_FORMAT with the canonical complete format '%Y-%m-%d %H:%i:%s' (renderer model of date_format.go):
+   19 characters whose fixed-width fields are exactly the value's fields -- the text determines the value *)
+Theorem C31_format_canonical_reads_back : forall t,
+  in_range t ->
+  exists s, render canonical_fmt t = Some s /\ length s = 19%nat /\
+            read_canonical s = {| yr := yr t; mo := mo t; dy := dy t; hh := hh t; mi := mi t; ss := ss t; us := 0 |}.
+Proof. exact canonical_format_reads_back. Qed.
+Print Assumptions C31_format_canonical_reads_back.
+
+(* %y is rendered without padding: one character for years xx00..xx09 *)
+Theorem C31_format_y_width : forall y, length (dec (y mod 100)) = (if y mod 100 <? 10 then 1%nat else 2%nat).
+Proof. exact y_width. Qed.
+Print Assumptions C31_format_y_width.
+
+Theorem C31_format_two_digit_year_refuted :
+  render [37; 121; 37; 109]%N {| yr := 2002; mo := 8; dy := 30; hh := 0; mi := 0; ss := 0; us := 0 |} = Some [50; 48; 56]%N.
+Proof. exact y_unpadded. Qed.
+Print Assumptions C31_format_two_digit_year_refuted.
 
 Example C31_nonvacuous :
   days_from_civil (1970, 1, 1) = 0 /\ civil_from_days 19782 = (2024, 2, 29) /\
